@@ -563,33 +563,18 @@ Qed.
 Lemma db_id_of_some n dbn i : db_id_of n dbn = Some i -> exists d, get_db n dbn = Some d /\ d_id d = i.
 Proof. unfold db_id_of. destruct (get_db n dbn) as [d|]; [|discriminate]. intros [= <-]. now exists d. Qed.
 
-Lemma snapshot_fold_none id : forall names x0,
-  snd (fold_left (fun (acc : cnode * option N) nm =>
-                   let '(x0, r0) := acc in
-                   match r0 with
-                   | None => (x0, None)
-                   | Some _ => match db_id_of (cn_node x0) nm with
-                               | Some d => (log_append x0 (mkRec id marker_snapshot d 3), Some id)
-                               | None => (x0, None)
-                               end
-                   end) names (x0, None)) = None.
-Proof. induction names as [|nm names IH]; intros x0; [reflexivity|]. cbn [fold_left]. apply IH. Qed.
-
-Lemma snapshot_fold_keeps id : forall names x0 x',
+Lemma snapshot_fold_keeps id : forall names x0 r0 x' r',
   decodable x0 -> times_le (cn_log x0) id ->
   fold_left (fun (acc : cnode * option N) nm =>
                let '(x0, r0) := acc in
-               match r0 with
+               match db_id_of (cn_node x0) nm with
+               | Some d => (log_append x0 (mkRec id marker_snapshot d 3), r0)
                | None => (x0, None)
-               | Some _ => match db_id_of (cn_node x0) nm with
-                           | Some d => (log_append x0 (mkRec id marker_snapshot d 3), Some id)
-                           | None => (x0, None)
-                           end
-               end) names (x0, Some id) = (x', Some id) ->
+               end) names (x0, r0) = (x', r') ->
   decodable x' /\ times_le (cn_log x') id.
 Proof.
-  induction names as [|nm names IH]; intros x0 x' Hd Hle H; cbn [fold_left] in H.
-  - injection H as <-. now split.
+  induction names as [|nm names IH]; intros x0 r0 x' r' Hd Hle H; cbn [fold_left] in H.
+  - injection H as <- _. now split.
   - destruct (db_id_of (cn_node x0) nm) as [i|] eqn:Ei.
     + destruct (db_id_of_some _ _ _ Ei) as (d & Hdb & Hdi).
       apply IH in H; [exact H| |].
@@ -599,7 +584,7 @@ Proof.
         -- cbn [r_op]. lia.
       * unfold log_append. cbn [cn_log]. intros r Hr. apply in_app_or in Hr.
         destruct Hr as [Hr|[<-|[]]]; [now apply Hle|cbn [r_time]; lia].
-    + exfalso. pose proof (snapshot_fold_none id names x0) as Hn. rewrite H in Hn. discriminate.
+    + apply IH in H; [exact H|exact Hd|exact Hle].
 Qed.
 
 Definition logged_request (rq : request) : Prop :=
@@ -1199,19 +1184,15 @@ Lemma snapshot_fold_meta id : forall names x0 o x' o',
   meta_keys (cn_log x0) ->
   fold_left (fun (acc : cnode * option N) nm =>
                let '(x0, r0) := acc in
-               match r0 with
+               match db_id_of (cn_node x0) nm with
+               | Some d => (log_append x0 (mkRec id marker_snapshot d 3), r0)
                | None => (x0, None)
-               | Some _ => match db_id_of (cn_node x0) nm with
-                           | Some d => (log_append x0 (mkRec id marker_snapshot d 3), Some id)
-                           | None => (x0, None)
-                           end
                end) names (x0, o) = (x', o') ->
   meta_keys (cn_log x').
 Proof.
   induction names as [|nm names IH]; intros x0 o x' o' Hm H; cbn [fold_left] in H.
   - injection H as <- _. exact Hm.
-  - destruct o as [i|]; [|eapply IH; eauto].
-    destruct (db_id_of (cn_node x0) nm) as [d|]; [|eapply IH; eauto].
+  - destruct (db_id_of (cn_node x0) nm) as [d|]; [|eapply IH; eauto].
     eapply IH; [|exact H]. unfold log_append. cbn [cn_log].
     apply meta_keys_snoc; [exact Hm|]. intros _. right. reflexivity.
 Qed.
